@@ -415,6 +415,31 @@ let judge_c08 = judge_queue J08
 let judge_c09 = judge_queue J09
 
 
+(* ---- C17 (pipeline side): whatever downlink answers an uplink is handed to the gateway interface for the gateway that
+   reported that uplink, with that gateway's clock, the uplink's data rate, channel, RF chain and frequency, and the RX1 delay
+   of its frame type (five seconds for a join-accept, one for data). ---- *)
+let judge_c17 (_euis : n list) (steps : step list) : string =
+  let verdict = ref "ok" in
+  List.iter (fun st ->
+    match st.ev with
+    | Rx (rx, _, _) when !verdict = "ok" ->
+      (match split_obs st.impl_obs with
+       | None -> ()
+       | Some (ds, _, _) ->
+         List.iter (fun dstr ->
+           match String.split_on_char ':' dstr with
+           | [rawhex; delay; gw; clock; datr; chan; rfch; fsame] ->
+             let mt = (match bytes_of_hex rawhex with b0 :: _ -> int_of_n b0 / 32 | [] -> -1) in
+             if n_of_hex gw <> rx.rx_gw.g_eui then verdict := "bad:downlink-for-another-gateway-than-the-uplink's"
+             else if int_of_string clock <> int_of_n rx.rx_gw.g_clock then verdict := "bad:downlink-timed-from-another-clock-than-the-uplink's"
+             else if datr <> ocaml_string_of rx.rx_radio.r_datr then verdict := "bad:downlink-data-rate-is-not-the-uplink's"
+             else if int_of_string chan <> int_of_n rx.rx_radio.r_chan || rfch <> "0" then verdict := "bad:downlink-channel-is-not-the-uplink's"
+             else if fsame <> "1" then verdict := "bad:downlink-frequency-is-not-the-uplink's"
+             else if (mt = 1 && delay <> "5") || ((mt = 3 || mt = 5) && delay <> "1") then verdict := "bad:rx1-delay-does-not-follow-the-frame-type"
+           | _ -> verdict := "bad:downlink-shape") ds)
+    | _ -> ()) steps;
+  !verdict
+
 (* ---- C10: crashes and failed writes. The steps cut short are judged like ordinary deliveries by the
    counter oracles (C03: a strict device's recorded counters strictly increase; C07: a (session key,
    downlink counter) pair is never used twice), and a DevNonce that led to a join-accept is never
